@@ -43,6 +43,7 @@ def run(chk, tier):
         ci.check_identities(chk, prog, cfg)
         point_ops(chk, prog, cfg)
         effects(chk, prog, cfg)
+        cr.check_stateless(chk, prog, cfg, rule="R11.6")
     liveness(chk)
     chk.trusted += ["BTreeMap iteration is key-ordered and deterministic", "rustc front end / MIR"]
     chk.assumptions += ["user-supplied type_info() functions are deterministic"]
